@@ -629,4 +629,6 @@ def check(fx, rep, tier):
         check_frame_arithmetic(fx, rep, crate, tag)
     rep.rule('R01.5', 'frame arithmetic: the search runs over buffer[message cursor..read cursor]; with N = message cursor + its result, the decoder gets '
                       'buffer[message cursor..N], the next frame starts at N + 1, the last-frame test reads buffer[N + 1]')
+    import imports as _imp
+    _imp.layer(fx, rep, 'C01')
     return META
